@@ -139,7 +139,7 @@ func checkAppendList(ops []porcupine.Operation) string {
 // C31 a merge operator returns the fold of all added values, in Add order.
 func C31(c *core.Ctx) {
 	c.Rule("2-6 clients call Add(unique token) and Get on one MergeOperator whose merge function is list append (associative, not commutative, so order is asserted), merge " +
-		"interval 1-40 ms, tiny memtables with background flush/compaction, 2-3 phases separated by Stop, Close and re-open; call/return events are checked with porcupine " +
+		"interval 1-40 ms, tiny memtables with background flush/compaction, 2-3 phases separated by Stop, Close and re-open; in every second history the merge key has neighbours (a proper prefix of it, keys extending it, a second merge operator on an extending key fed concurrently) whose values must never appear in the list; call/return events are checked with porcupine " +
 		"against a list model: Get must return the concatenation of a linearization prefix of the Adds, ErrKeyNotFound only before the first completed Add; many short histories; " +
 		"distinct = (clients, merge interval class, phases, options) configurations in which a background merge ran between Adds")
 	work := c.WorkDir()
@@ -165,11 +165,29 @@ func C31(c *core.Ctx) {
 		var ops []porcupine.Operation
 		var mu sync.Mutex
 		key := []byte("merge-key")
+		// neighbours of the merge key (a proper prefix of it, keys that extend it, the adjacent keys):
+		// their values must never show up in the merged list
+		neighbours := i%2 == 0
+		if neighbours {
+			_ = db.Update(func(txn *badger.Txn) error {
+				for j, k := range []string{"merge-ke", "merge-key\x00", "merge-key-sibling", "merge-key\xff", "merge-kez"} {
+					if err := txn.Set([]byte(k), []byte(fmt.Sprintf("<foreign%d>", j))); err != nil {
+						return err
+					}
+				}
+				return nil
+			})
+		}
 		c.Eval(1)
 		info := map[string]any{"clients": nClients, "phases": phases, "merge_interval_ms": dur.Milliseconds(), "options": ov.Name}
 		ntok := 0
 		for ph := 0; ph < phases && db != nil; ph++ {
 			mo := db.GetMergeOperator(key, app, dur)
+			var sib *badger.MergeOperator
+			if neighbours {
+				// a second operator on a key that extends the merge key, fed concurrently
+				sib = db.GetMergeOperator([]byte("merge-key:2"), app, dur)
+			}
 			var wg sync.WaitGroup
 			seeds := make([]int64, nClients)
 			for j := range seeds {
@@ -187,6 +205,9 @@ func C31(c *core.Ctx) {
 					for k := 0; k < perClient; k++ {
 						if rr.Intn(3) != 0 {
 							tok := fmt.Sprintf("<%d>", base+cl*perClient+k)
+							if sib != nil && rr.Intn(2) == 0 {
+								_ = sib.Add([]byte(fmt.Sprintf("<sibling%d.%d>", cl, k)))
+							}
 							t0 := clock.Add(1)
 							err := mo.Add([]byte(tok))
 							t1 := clock.Add(1)
@@ -226,6 +247,9 @@ func C31(c *core.Ctx) {
 				ops = append(ops, porcupine.Operation{ClientId: 100, Input: mergeOp{}, Call: t0, Output: string(v), Return: t1})
 			}
 			mo.Stop()
+			if sib != nil {
+				sib.Stop()
+			}
 			if ph < phases-1 {
 				if err := db.Close(); err != nil {
 					c.Violation("C31|close", err.Error(), info)
@@ -260,7 +284,7 @@ func C31(c *core.Ctx) {
 			_ = db.Close()
 		}
 		_ = os.RemoveAll(dir)
-		c.Distinct(fmt.Sprintf("clients=%d|dur=%d|phases=%d|%s", nClients, dur.Milliseconds()/10, phases, ov.Name))
+		c.Distinct(fmt.Sprintf("clients=%d|dur=%d|phases=%d|%s|neighbours=%v", nClients, dur.Milliseconds()/10, phases, ov.Name, neighbours))
 		if i < 2 {
 			c.Sample(info)
 		}
